@@ -122,6 +122,17 @@ func (s *State) bumpAllocTyped(allowed []string, unknown bool) {
 		return
 	}
 	s.noteAllocTags(allowed...)
+	// the objects created in this gap have one of the declared dynamic types (precise per gap; the per-function summary
+	// of emitAllocSummary is the union over all gaps)
+	alts := []string{eq("(rtype r!g)", strLit("$hidden")), eq("(rtype r!g)", strLit("$error")), eq("(rtype r!g)", strLit("$iface")), eq("(rtype r!g)", strLit("$closure"))}
+	seen := map[string]bool{}
+	for _, t := range allowed {
+		if t != "" && !seen[t] {
+			seen[t] = true
+			alts = append(alts, eq("(rtype r!g)", strLit(t)))
+		}
+	}
+	s.assume(fmt.Sprintf("(forall ((r!g Int)) (! (=> (and (<= %s r!g) (< r!g %s)) %s) :pattern ((rtype r!g))))", old, na, or(alts...)))
 }
 
 func (s *State) noteAllocTags(tags ...string) {
@@ -241,6 +252,9 @@ func (s *State) callContract(spec *FuncSpec, callee *ssa.Function, c *ssa.CallCo
 		fv := s.valueOf(c.Value)
 		env.vars["$fn"] = fv
 		s.oblige("safety", "nil-func-call", []string{"C19"}, not(eq(fv.Terms[0], "0")), where, "")
+	}
+	if callee != nil && callee == s.fn {
+		s.eng.assumptionsUsed["termination of the recursion in "+s.eng.fnKey(s.fn)+" is not proved (no measure for recursive calls); partial correctness only"] = true
 	}
 	pre := s.snapshot()
 	env.old = pre
